@@ -75,10 +75,28 @@ def _load(mod_id):
     return _mod
 
 
+def all_scenarios(mod, tier):
+    """the module's scenarios plus, for modules that opt in (DECORATE = True or a list of scenario names), one
+    shadow scenario per scenario: every meaning-preserving decoration of decorate.DECOS x at most one (quick) /
+    two (thorough) deviations of the scenario's own choice points"""
+    scns = list(mod.scenarios(tier))
+    want = getattr(mod, 'DECORATE', None)
+    if want and not os.environ.get('T4MC_NO_DECO'):
+        from . import decorate
+        for s in list(scns):
+            if want is True or s.name in want:
+                sh = Scn(s.name + '~deco', decorate.shadow_build(s.build), 1, 2,
+                         'every decoration (IMP data card, number spellings, other cell parameters, case, '
+                         'continuations, comments, tabs, blanks, message block) x <= 1 / 2 deviations of: ' + s.note)
+                sh.check_name = s.name
+                scns.append(sh)
+    return scns
+
+
 def _scenarios(mod, tier):
     global _scn
     if _scn is None or _scn[0] != tier:
-        _scn = (tier, {s.name: s for s in mod.scenarios(tier)})
+        _scn = (tier, {s.name: s for s in all_scenarios(mod, tier)})
     return _scn[1]
 
 
@@ -91,7 +109,7 @@ def run_one(mod_id, tier, scn_name, trace, keep_text=False):
         raise explore.ReplayDivergence('%s %s: trace %r replayed as %r'
                                        % (mod_id, scn_name, trace, ch.trace))
     try:
-        v = mod.check_state(scn_name, state)
+        v = mod.check_state(getattr(scn, 'check_name', scn_name), state)
     except Exception as e:   # a crash of the oracle is a harness error, not a verdict
         v = verdict(False, state, cls={'harness': type(e).__name__},
                     msg='harness exception: ' + traceback.format_exc()[-1500:])
@@ -228,7 +246,7 @@ def main(mod_id, tier, seed):
         else:
             canary_failed = [n for n, ok in canary_results if not ok]
 
-    scns = mod.scenarios(tier)
+    scns = all_scenarios(mod, tier)
     enums = {s.name: explore.LevelEnumerator(s.build, s.bound(tier)) for s in scns}
     order = list(scns)
     if seed:
